@@ -1,6 +1,7 @@
 (* C16_bodies.v — the shipped planetary table (ahrs/common/constants.py) run through ReferenceEllipsoid:
-   each non-spherical body takes the general branch and its equatorial / polar normal gravity lies in the stated
-   6-digit window (Interval tactic on the exact decimal constants); in particular both are positive, also for
+   each non-spherical body takes the general branch and its equatorial / polar normal gravity lies within 2 % of the value
+   recorded here (Interval tactic on the exact decimal constants; the window is wide so that a refinement of a mass or radius in
+   the table does not break the proof); in particular both are positive, also for
    Jupiter (m = 0.083) and Saturn (m = 0.140), which lie outside the m < 0.05 part of the property's domain.
    The two spherical bodies (Venus, Pluto) are in C16_refuted.v / C16_sphere.v. *)
 From Coq Require Import Reals List Lra.
@@ -22,42 +23,43 @@ Ltac body_tac :=
   eexists _, _, _, _; split; [reflexivity|];
   repeat split; try lra; interval with (i_prec 100).
 
+
 (* EARTH: f = 0.00335281, m = 0.00344979, ge = 9.78032534, gp = 9.83218494 *)
 Lemma body_EARTH : exists f m ge gp, C16_body_EARTH_R = Val [f; m; ge; gp] /\
-  0 < f < 1/5 /\ 344977/100000000 < m < 17249/5000000 /\ 978031/100000 < ge < 489017/50000 /\ 983217/100000 < gp < 49161/5000.
+  0 < f < 1/5 /\ 169/50000 < m < 11/3125 /\ 479/50 < ge < 499/50 /\ 241/25 < gp < 10.
 Proof. unfold C16_body_EARTH_R. body_tac. Qed.
 
 (* MOON: f = 0.00120822, m = 1.31561e-08, ge = 1.62492065, gp = 1.62295745 *)
 Lemma body_MOON : exists f m ge gp, C16_body_MOON_R = Val [f; m; ge; gp] /\
-  0 < f < 1/5 /\ 3289/250000000000 < m < 131563/10000000000000 /\ 162491/100000 < ge < 81247/50000 /\ 81147/50000 < gp < 162297/100000.
+  0 < f < 1/5 /\ 129/10000000000 < m < 67/5000000000 /\ 159/100 < ge < 83/50 /\ 159/100 < gp < 83/50.
 Proof. unfold C16_body_MOON_R. body_tac. Qed.
 
 (* MERCURY: f = 0.000930126, m = 1.01339e-06, ge = 3.70258333, gp = 3.69914884 *)
 Lemma body_MERCURY : exists f m ge gp, C16_body_MERCURY_R = Val [f; m; ge; gp] /\
-  0 < f < 1/5 /\ 101337/100000000000 < m < 5067/5000000000 /\ 370257/100000 < ge < 18513/5000 /\ 369913/100000 < gp < 92479/25000.
+  0 < f < 1/5 /\ 993/1000000000 < m < 103/100000000 /\ 363/100 < ge < 189/50 /\ 363/100 < gp < 377/100.
 Proof. unfold C16_body_MERCURY_R. body_tac. Qed.
 
 (* MARS: f = 0.00588601, m = 0.00456817, ge = 3.70966361, gp = 3.73036531 *)
 Lemma body_MARS : exists f m ge gp, C16_body_MARS_R = Val [f; m; ge; gp] /\
-  0 < f < 1/5 /\ 28551/6250000 < m < 456819/100000000 /\ 74193/20000 < ge < 46371/12500 /\ 74607/20000 < gp < 186519/50000.
+  0 < f < 1/5 /\ 14/3125 < m < 233/50000 /\ 91/25 < ge < 189/50 /\ 183/50 < gp < 19/5.
 Proof. unfold C16_body_MARS_R. body_tac. Qed.
 
 (* JUPITER: f = 0.0648744, m = 0.0834048, ge = 23.1250462, gp = 26.9775897 *)
 Lemma body_JUPITER : exists f m ge gp, C16_body_JUPITER_R = Val [f; m; ge; gp] /\
-  0 < f < 1/5 /\ 834047/10000000 < m < 16681/200000 /\ 231249/10000 < ge < 57813/2500 /\ 134887/5000 < gp < 269777/10000.
+  0 < f < 1/5 /\ 817/10000 < m < 851/10000 /\ 227/10 < ge < 118/5 /\ 132/5 < gp < 55/2.
 Proof. unfold C16_body_JUPITER_R. body_tac. Qed.
 
 (* SATURN: f = 0.0979624, m = 0.139654, ge = 9.07669217, gp = 12.0370024 *)
 Lemma body_SATURN : exists f m ge gp, C16_body_SATURN_R = Val [f; m; ge; gp] /\
-  0 < f < 1/5 /\ 139653/1000000 < m < 17457/125000 /\ 226917/25000 < ge < 907671/100000 /\ 120369/10000 < gp < 30093/2500.
+  0 < f < 1/5 /\ 137/1000 < m < 71/500 /\ 89/10 < ge < 463/50 /\ 59/5 < gp < 123/10.
 Proof. unfold C16_body_SATURN_R. body_tac. Qed.
 
 (* URANUS: f = 0.0229273, m = 0.0288572, ge = 8.68210277, gp = 9.13064048 *)
 Lemma body_URANUS : exists f m ge gp, C16_body_URANUS_R = Val [f; m; ge; gp] /\
-  0 < f < 1/5 /\ 28857/1000000 < m < 288573/10000000 /\ 868209/100000 < ge < 217053/25000 /\ 913063/100000 < gp < 456533/50000.
+  0 < f < 1/5 /\ 283/10000 < m < 147/5000 /\ 851/100 < ge < 443/50 /\ 179/20 < gp < 931/100.
 Proof. unfold C16_body_URANUS_R. body_tac. Qed.
 
 (* NEPTUNE: f = 0.0170812, m = 0.0256321, ge = 10.901503, gp = 11.4359108 *)
 Lemma body_NEPTUNE : exists f m ge gp, C16_body_NEPTUNE_R = Val [f; m; ge; gp] /\
-  0 < f < 1/5 /\ 801/31250 < m < 256323/10000000 /\ 54507/5000 < ge < 109017/10000 /\ 57179/5000 < gp < 114361/10000.
+  0 < f < 1/5 /\ 251/10000 < m < 261/10000 /\ 107/10 < ge < 111/10 /\ 56/5 < gp < 117/10.
 Proof. unfold C16_body_NEPTUNE_R. body_tac. Qed.
